@@ -310,6 +310,7 @@ func RunOne(o core.RunOpts) (res *core.RunResult) {
 	// createBatch submits n data requests and returns those the chain accepted
 	nAll := 0
 	createBatch := func(n int, forceDS int64) []*reqInfo {
+		var batchMsgs []sdk.Msg
 		for i := 0; i < n; i++ {
 			k := 1 + ch.Intn("req.nraw", 8)
 			ids := make([]int64, k)
@@ -322,8 +323,16 @@ func RunOne(o core.RunOpts) (res *core.RunResult) {
 			ask := uint64(1 + ch.Intn("req.ask", nv))
 			calldata := obi.MustEncode(testdata.Wasm4Input{IDs: ids, Calldata: fmt.Sprintf("cd%d", nAll)})
 			msg := oracletypes.NewMsgRequestData(oracletypes.OracleScriptID(chainsim.ScriptEcho), calldata, ask, 1, fmt.Sprintf("c%d", nAll), sdk.NewCoins(), 1_000_000, 3_000_000, w.Users[0].Addr, oracletypes.ENCODER_UNSPECIFIED)
-			w.Submit(&world.Intent{Signer: w.Users[0], Msgs: []sdk.Msg{msg}, Tag: "request"})
 			nAll++
+			// one transaction may carry several requests (a batch): every one of them is a request of its own for the daemon
+			batchMsgs = append(batchMsgs, msg)
+			if i == n-1 || !ch.Bool("req.sametx", 300) {
+				if len(batchMsgs) > 1 {
+					st.Fault("several_requests_in_one_transaction")
+				}
+				w.Submit(&world.Intent{Signer: w.Users[0], Msgs: batchMsgs, Tag: "request", Gas: uint64(5_000_000 * len(batchMsgs))})
+				batchMsgs = nil
+			}
 		}
 		var out []*reqInfo
 		for b := 0; b < 2; b++ {
@@ -579,25 +588,41 @@ func RunOne(o core.RunOpts) (res *core.RunResult) {
 				}
 			}()
 			deliver := func(batch []*reqInfo, label string) {
-				for _, i := range ch.Perm(label+".order", len(batch)) {
-					ri := batch[i]
+				// the unit the node delivers is the transaction: group the batch by transaction (one may carry several requests)
+				var keys []string
+				byTx := map[string][]*reqInfo{}
+				for _, ri := range batch {
+					k := fmt.Sprintf("%012d/%06d", ri.Tx.Height, ri.Tx.Index)
+					if byTx[k] == nil {
+						keys = append(keys, k)
+					}
+					byTx[k] = append(byTx[k], ri)
+				}
+				for _, i := range ch.Perm(label+".order", len(keys)) {
+					group := byTx[keys[i]]
 					switch ch.Weighted(label+".how", []int{70, 10, 10, 10}) {
 					case 0:
-						go yc.VerifHandleTransaction(ri.Tx)
+						go yc.VerifHandleTransaction(group[0].Tx)
 					case 1:
 						// a caller of the request handler that did not go through the pending list
-						go yc.VerifHandleRequest(oracletypes.RequestID(ri.ID))
+						for _, ri := range group {
+							go yc.VerifHandleRequest(oracletypes.RequestID(ri.ID))
+						}
 					case 2:
-						// the request was already open when the daemon started: marked pending, then handled
-						st.Fault("request_pending_at_daemon_start")
-						go yc.VerifStartupPending(oracletypes.RequestID(ri.ID))
+						// the requests were already open when the daemon started: marked pending, then handled
+						for _, ri := range group {
+							st.Fault("request_pending_at_daemon_start")
+							go yc.VerifStartupPending(oracletypes.RequestID(ri.ID))
+						}
 					case 3:
-						// ... and its transaction event is also delivered (the node replays it): still exactly one report
-						st.Fault("request_pending_at_daemon_start")
+						// ... and their transaction event is also delivered (the node replays it): still exactly one report each
+						for _, ri := range group {
+							st.Fault("request_pending_at_daemon_start")
+							go yc.VerifStartupPending(oracletypes.RequestID(ri.ID))
+						}
 						st.Fault("transaction_event_of_a_pending_request")
-						go yc.VerifStartupPending(oracletypes.RequestID(ri.ID))
 						s.run(1)
-						go yc.VerifHandleTransaction(ri.Tx)
+						go yc.VerifHandleTransaction(group[0].Tx)
 					}
 					if ch.Bool(label+".gap", 300) {
 						s.run(1)
